@@ -2085,7 +2085,16 @@ def c06(case):
                     div_ok = all(re.fullmatch(r"L\d+", x) for x in p["raw_lots"]) and len(p["raw_lots"]) == el["nlots"]
                 else:
                     div_ok = all(x.startswith(pre + " of L") for x in p["raw_lots"]) and len(p["raw_lots"]) == el["nlots"]
-            parts.append({"lots": p["lots"], "qqs": p["qqs"], "div_ok": div_ok, "raw": (p["raw_lots"], p["raw_qqs"])})
+            part = {"lots": p["lots"], "qqs": p["qqs"], "div_ok": div_ok, "raw": (p["raw_lots"], p["raw_qqs"])}
+            if el.get("want_lots") is not None:
+                # the lots an element yields on its own, as written: the numbers of the group in order, each carrying
+                # the division aliquot unless divisions are suppressed (the harness rendered the numbers, it knows them)
+                pre = (el["div_prefix"] + " of ") if el["kind"] == "DIV" and not a["suppress"] else ""
+                part["lots_ok"] = p["raw_lots"] == ["%sL%d" % (pre, n) for n in el["want_lots"]] and not p["raw_qqs"]
+            if el["kind"] == "ALQ":
+                part["lots_ok"] = not p["raw_lots"]
+                part["pieces"] = [(tokenize_piece(q) if isinstance(q, str) else None) or ["?" + str(q)[:20]] for q in p["raw_qqs"]]
+            parts.append(part)
         acres_ok = True
         for lot, ac in a["acres"].items():
             if whole["acres"].get(lot) != ac:
